@@ -1983,12 +1983,13 @@ int
 ppl_MIP_Problem_constraint_at_index(ppl_const_MIP_Problem_t mip,
                                     ppl_dimension_type i,
                                     ppl_const_Constraint_t* pc) try {
-#ifndef NDEBUG
-  ppl_dimension_type num_constraints;
-  ppl_MIP_Problem_number_of_constraints(mip, &num_constraints);
-  assert(i < num_constraints);
-#endif
   const MIP_Problem& mmip = *to_const(mip);
+  if (i >= static_cast<ppl_dimension_type>(mmip.constraints_end()
+                                           - mmip.constraints_begin())) {
+    throw std::invalid_argument("ppl_MIP_Problem_constraint_at_index"
+                                "(mip, i, pc): i is not the index of "
+                                "a constraint of mip.");
+  }
   const Constraint& c = *(mmip.constraints_begin() + i);
   *pc = to_const(&c);
   return 0;
@@ -2268,12 +2269,13 @@ int
 ppl_PIP_Problem_constraint_at_index(ppl_const_PIP_Problem_t pip,
                                     ppl_dimension_type i,
                                     ppl_const_Constraint_t* pc) try {
-#ifndef NDEBUG
-  ppl_dimension_type num_constraints;
-  ppl_PIP_Problem_number_of_constraints(pip, &num_constraints);
-  assert(i < num_constraints);
-#endif
   const PIP_Problem& ppip = *to_const(pip);
+  if (i >= static_cast<ppl_dimension_type>(ppip.constraints_end()
+                                           - ppip.constraints_begin())) {
+    throw std::invalid_argument("ppl_PIP_Problem_constraint_at_index"
+                                "(pip, i, pc): i is not the index of "
+                                "a constraint of pip.");
+  }
   const Constraint& c = *(ppip.constraints_begin() + i);
   *pc = to_const(&c);
   return 0;
@@ -2362,6 +2364,10 @@ CATCH_ALL
 int
 ppl_PIP_Problem_get_control_parameter(ppl_const_PIP_Problem_t pip,
                                       int name) try {
+  if (name < 0 || name >= PIP_Problem::CONTROL_PARAMETER_NAME_SIZE) {
+    throw std::invalid_argument("ppl_PIP_Problem_get_control_parameter"
+                                "(pip, name): invalid name.");
+  }
   PIP_Problem::Control_Parameter_Name n
     = static_cast<PIP_Problem::Control_Parameter_Name>(name);
   return to_const(pip)->get_control_parameter(n);
